@@ -1,7 +1,7 @@
 (* No operation of the world is ever stuck (panic; read of an uninitialised,
    moved-out or out-of-range slot), provided component types are registered
    before they are used (using an unregistered component is a documented panic). *)
-From SV Require Import Base.ListX Alloc.LifeProps Store.Masked Store.StoreInv World.Env World.StoreSim World.EnvSim
+From SV Require Import Base.ListX Alloc.LifeProps Store.Masked Store.StoreInv World.Env World.Join World.JoinPres World.StoreSim World.EnvSim
   World.WorldSpec World.Simulation World.Micro.
 
 Definition registered (e : senv) (sid : N) : bool :=
@@ -18,6 +18,7 @@ Definition op_regs_ok (e : senv) (o : op) : bool :=
   | OStore so => registered e (sop_sid so) && valid_sid (sop_sid so)
   | OQuiet (SRegister sid) => valid_sid sid
   | OQuiet so => registered e (sop_sid so) && valid_sid (sop_sid so)
+  | OJoin _ _ => false        (* joins: World/JoinSafe.v *)
   | _ => true
   end.
 
@@ -87,7 +88,7 @@ Proof.
     apply (s_insert_comps_ok w1 e k H1).
     - rewrite L, En. apply life_alive_on_return.
     - rewrite E. assumption. }
-  destruct o as [k|k|n| |n|built k|k|h|hs|h| | |h|h| |h| |so| |lsid lh lv|lsid ll|lsid lh|prog|qso| ]; cbn [sstep_core op_regs_ok] in *.
+  destruct o as [k|k|n| |n|built k|k|h|hs|h| | |h|h| |h| |so| |lsid lh lv|lsid ll|lsid lh|prog|qso|jk jms|cso| ]; cbn [sstep_core op_regs_ok] in *.
   - specialize (Hcr false (hd_choice cs) k Hr). destruct (s_create false w (hd_choice cs)) as [w1 e]. exact Hcr.
   - specialize (Hcr false (hd_choice cs) k Hr). destruct (s_create false w (hd_choice cs)) as [w1 e]. cbn [fst].
     apply (SInvE_env (s_insert_comps w1 e k)); [apply s_builder_drop_envE | assumption].
@@ -151,9 +152,17 @@ Proof.
     destruct X as [X1 X2].
     assert (forall t, EInv (env_cx e' (cx_drop (se_cx e') t)) /\ cx_stuck (se_cx (env_cx e' (cx_drop (se_cx e') t))) = false) as Hd.
     { intros t. split; [apply EInv_cx; assumption | cbn; congruence]. }
-    split; cbn [s_with_env s_env]; destruct out as [| | | | | | | |r|o| | | | | | | ]; try assumption; try congruence;
+    split; cbn [s_with_env s_env]; destruct out as [| | | | | | | |r|o| | | | | | | | | | ]; try assumption; try congruence;
       try (destruct r; try assumption; try congruence; apply Hd);
       try (destruct o; try assumption; try congruence; apply Hd).
+  - discriminate.
+  - destruct H as [HE Hs].
+    pose proof (env_csop_pres (fun e' => EInv e' /\ cx_stuck (se_cx e') = false)) as X.
+    assert (forall e' k m, EInv e' /\ cx_stuck (se_cx e') = false -> EInv (cs_put e' k m) /\ cx_stuck (se_cx (cs_put e' k m)) = false) as Hcs.
+    { intros e' k m [[A B] C]. split; [split; cbn [cs_put se_stores se_table]; assumption | exact C]. }
+    specialize (X Hcs (s_env w) (s_hs w) cso (conj HE Hs)).
+    destruct (env_csop (s_env w) (s_hs w) cso) as [e' r]. cbn [fst] in *. destruct X as [X1 X2].
+    split; cbn [s_with_env s_env]; assumption.
   - assumption.
 Qed.
 
